@@ -207,6 +207,14 @@ def corner_cases():
     for desc in (base, dup, neg):
         for kind in KINDS:
             yield kind, dict(desc)
+    # route costs of mixed sign that cancel in the sum (-K, +K, 1): a sufficient penalty computed
+    # from the SUM of the costs instead of the sum of their absolute values is far too small here
+    for K in (3, 10, 1000):
+        mixed = dict(base, nodes=[("D", 0, 0, INF), ("c1", 0, 0, 8), ("c2", 0, 0, 8)],
+                     arcs=[("D", "c1", 1, -K), ("c1", "D", 1, 0), ("D", "c2", 1, K), ("c2", "D", 1, 0), ("c1", "c2", 1, K + 1)],
+                     time_points=[0, 1, 2, 3], routes=[["D", "c1", "D"], ["D", "c2", "D"], ["D", "c1", "c2", "D"]], V=2, L=4,
+                     strict=False)
+        yield "path", dict(mixed)
 
 
 # --------------------------------------------------------------------------- exact views
